@@ -9,6 +9,9 @@ mod engine;
 mod fs;
 mod run_script;
 mod work_dir;
+#[cfg(zinoma_verif)]
+#[path = "/verif/harness/inproc.rs"]
+mod zinoma_verif;
 
 use anyhow::{Context, Result};
 use async_ctrlc::CtrlC;
@@ -31,6 +34,11 @@ static GLOBAL: Jemalloc = Jemalloc;
 pub static DEFAULT_CHANNEL_CAP: usize = 64;
 
 fn main() -> Result<()> {
+    #[cfg(zinoma_verif)]
+    if let Some(code) = zinoma_verif::dispatch() {
+        std::process::exit(code);
+    }
+
     let arg_matches = cli::get_app().get_matches();
 
     stderrlog::new()
